@@ -322,11 +322,67 @@ PADDED = "sonic_rs::reader::PaddedSliceRead"
 TOKEN_CONT = set(b"0123456789.eE+-") | set(b"truefalsn")
 
 
+def _array_local_bytes(fn, arr):
+    """bytes of a local array built as `[c; N]` and then patched by copy_from_slice of constants into
+    constant ranges (in dominance order); None if anything else writes it"""
+    d = fn.single_def(arr)
+    if not d or d[0] != "stmt" or d[3]["rv"]["k"] != "repeat":
+        return None
+    c = op_int(d[3]["rv"]["op"])
+    try:
+        n = int(d[3]["rv"]["n"].split("_")[0].split(" ")[0])
+    except ValueError:
+        return None
+    if c is None:
+        return None
+    buf = bytearray([c & 0xFF] * n)
+    patches = []
+    for b, t in fn.calls():
+        if callee_is(t, "copy_from_slice"):
+            dl = op_local(t["args"][0])
+            src_bytes = _const_bytes_of_arg(fn, t["args"][1])
+            if dl is None:
+                continue
+            # dest = index_mut(&mut arr, range)
+            chain = fn.src(dl)
+            if chain[0] != "call" or not callee_is(chain[2], "index_mut"):
+                continue
+            base = op_local(chain[2]["args"][0])
+            if base is None or fn.src(base) != ("refof", arr):
+                continue
+            rl = op_local(chain[2]["args"][1])
+            agg = fn.single_def(rl) if rl is not None else None
+            if src_bytes is None or not agg or agg[0] != "stmt" or agg[3]["rv"]["k"] != "agg":
+                return None
+            rv = agg[3]["rv"]
+            vals = [op_int(x) for x in rv["f"]]
+            nm = rv.get("adt", "")
+            if nm.endswith("RangeTo") and vals[0] is not None:
+                lo, hi = 0, vals[0]
+            elif nm.endswith("Range") and None not in vals[:2]:
+                lo, hi = vals[0], vals[1]
+            elif nm.endswith("RangeFrom") and vals[0] is not None:
+                lo, hi = vals[0], n
+            else:
+                return None
+            if hi - lo != len(src_bytes) or hi > n:
+                return None
+            patches.append((len(fn.dom.get(b, ())), lo, hi, src_bytes))
+    for _, lo, hi, bs in sorted(patches):
+        buf[lo:hi] = bs
+    return bytes(buf)
+
+
 def _const_bytes_of_arg(fn, o):
     """constant byte string reaching an operand through refs / unsizing / full-range index"""
     l = op_local(o)
     if l is None:
         return op_bytes(o)
+    sc = fn.src(l)
+    if sc[0] == "refof":
+        ab = _array_local_bytes(fn, sc[1])
+        if ab is not None:
+            return ab
     sl, leaves = backward_slice(fn, [l])
     bs = [op_bytes(lf[1]) for lf in leaves if lf[0] == "const" and op_bytes(lf[1]) is not None]
     dyn = [lf for lf in leaves if lf[0] == "param"]
